@@ -64,10 +64,17 @@ def check(ctx: Ctx) -> str:
     txt = ast.unparse(app[0].args[0])
     ctx.check("escape(key)" in txt and "escape(value)" in txt and '="' in txt, "xmlattr:escaped", "filters:do_xmlattr", "key and value escaped and quoted", f"xmlattr must emit escape(key)=\"escape(value)\"; it appends {txt}", xa.loc(app[0]))
     rs = [r for r in astq.raises(xa.node) if astq.raise_type(r) == "ValueError"]
-    ok = len(rs) == 1 and any(ast.unparse(g) == "_attr_key_re.search(key) is not None" and pol for g, pol in guards_of(rs[0])) and rs[0].lineno < app[0].lineno
     loop = [n for n in ast.walk(xa.node) if isinstance(n, ast.For)]
-    same_block = bool(loop) and astq.stmt_of(rs[0]) is not None and any(getattr(astq.stmt_of(rs[0]), "_parent", None) is s_ or s_ is astq.stmt_of(rs[0]) for s_ in loop[0].body) if rs else False
-    ctx.check(ok and same_block and not guards_of(app[0], stop=loop[0]) if loop else False, "xmlattr:key-check", "filters:do_xmlattr", "key check dominates emission",
+    # the key test rejects (raises) exactly when the pattern finds a forbidden character, and
+    # the emission lies on the path where that test passed - for every emitted key
+    key_ok = "_attr_key_re.search(key) is None"
+    ra = astq.guard_atoms(loop[0], rs[0]) if (loop and len(rs) == 1) else []
+    aa = astq.guard_atoms(loop[0], app[0]) if loop else []
+    ok = len(rs) == 1 and (key_ok, False) in ra
+    dominated = (key_ok, True) in aa
+    # the only other conditions on the emission are the None / undefined skip
+    extra = [a_ for a_ in aa if a_ not in ((key_ok, True), ("value is None", False), ("isinstance(value, Undefined)", False))]
+    ctx.check(ok and dominated and not extra if loop else False, "xmlattr:key-check", "filters:do_xmlattr", "key check dominates emission",
               "every key must be rejected with ValueError when _attr_key_re matches, before (and on the same path as) it is appended", xa.loc())
     lm = LexModel(repo, configs()[0])
     m = repo.module("filters")
@@ -78,8 +85,7 @@ def check(ctx: Ctx) -> str:
     need = [" ", "\t", "\n", "\r", "\x0c", "/", ">", "="]
     missing = [repr(c) for c in need if not rx.fullmatch(c)]
     ctx.check(not missing, "xmlattr:key-pattern", "filters:<module>", "_attr_key_re character set", f"_attr_key_re = {kre.args[0].value!r} does not reject {missing}: such a key ends the attribute name and injects another attribute", "src/jinja2/filters.py", detail={"pattern": kre.args[0].value})
-    skip = [n for n in ast.walk(xa.node) if isinstance(n, ast.Continue)]
-    ctx.check(len(skip) == 1 and any("value is None or isinstance(value, Undefined)" == ast.unparse(g) and pol for g, pol in guards_of(skip[0])), "xmlattr:skip", "filters:do_xmlattr", "None/undefined skipped", "None and undefined values must be skipped", xa.loc())
+    ctx.check(("value is None", False) in aa and ("isinstance(value, Undefined)", False) in aa, "xmlattr:skip", "filters:do_xmlattr", "None/undefined skipped", "None and undefined values must be skipped", xa.loc())
 
     ctx.rule("R4", "urlize: the text is escaped before it is split into words; rel / target attributes are escaped and quoted; every anchor template quotes its href")
     ul = repo.func("utils:urlize")
@@ -93,7 +99,9 @@ def check(ctx: Ctx) -> str:
         ctx.check(t_.startswith("f'<a href=\"") and "</a>" in t_ and '"' in t_.split("href=")[1][1:], f"urlize:anchor:{a.lineno}", "utils:urlize", "anchor template", f"anchor template {t_[:60]} must quote its href and close the tag", ul.loc(a))
     du = repo.func("filters:do_urlize")
     s = ast.unparse(du.node)
-    ctx.check("_uri_scheme_re.fullmatch(scheme) is None" in s and "raise FilterArgumentError" in s, "urlize:schemes", "filters:do_urlize", "extra schemes validated", "extra URI schemes must be validated against _uri_scheme_re", du.loc())
+    fa = [r_ for r_ in astq.raises(du.node) if astq.raise_type(r_) == "FilterArgumentError"]
+    sch_ok = any(("_uri_scheme_re.fullmatch(scheme) is None", True) in astq.guard_atoms(du.node, r_) or ("_uri_scheme_re.fullmatch(scheme)", False) in astq.guard_atoms(du.node, r_) for r_ in fa)
+    ctx.check(sch_ok, "urlize:schemes", "filters:do_urlize", "extra schemes validated", "extra URI schemes must be validated against _uri_scheme_re", du.loc())
     markup_only_under_autoescape(ctx, "R5")
 
     ctx.rule("R6", "filters combining a safe string with plain arguments escape the plain side: replace, join; escape/forceescape escape the string form")
